@@ -45,6 +45,9 @@ def build_args(args):
 def make_obj(desc):
     if desc is None:
         return None
+    if desc.get("kind") == "net":
+        import pandapipes
+        return pandapipes.create_empty_network(fluid=desc.get("fluid", "hgas"))
     if desc.get("kind") == "fluid":
         import pandapipes
         net = pandapipes.create_empty_network(fluid=desc.get("name", "water"))
@@ -318,3 +321,26 @@ def h_thermal_mix_weight(inp, body):
     return {"reproduced": bool(abs(got - expected) > 1e-4),
             "observed": {"t_mix_pandapipes": got, "t_mix_energy_balance": expected,
                          "difference_k": got - expected, "mass_flows": m.tolist()}}
+
+
+def h_pipeflow_kwargs(inp, body):
+    """an option passed explicitly to pipeflow() with the value None / 0 / '' must be the value in
+    force (call > user > default)"""
+    import pandapipes as pp
+    key = inp["key"]
+    bad = []
+    for val in (None, 0, "", False):
+        net = pp.create_empty_network(fluid="water")
+        j = pp.create_junctions(net, 2, pn_bar=5, tfluid_k=300)
+        pp.create_ext_grid(net, j[0], p_bar=5, t_k=300)
+        pp.create_pipe_from_parameters(net, j[0], j[1], 0.1, 0.1)
+        pp.create_sink(net, j[1], 0.1)
+        pp.set_user_pf_options(net, **{key: "user_value"})
+        try:
+            pp.pipeflow(net, **{key: val})
+        except Exception:  # noqa
+            pass
+        got = net.get("_options", {}).get(key, "<missing>")
+        if got != val or (got is not val and val is None):
+            bad.append({"passed": repr(val), "in_force": repr(got)})
+    return {"reproduced": bool(bad), "observed": {"key": key, "mismatches": bad}}
